@@ -628,10 +628,11 @@ def isConversionName (upper : String) : Bool :=
   | some (a, b) => isBuiltinType a && isBuiltinType b
   | none => false
 
-/-- `is_allowed_watch_call`. -/
+/-- `is_allowed_watch_call` (as of 140f0e8: pure standard functions and conversions; the `SPLIT_*`
+functions, which write their output arguments, are no longer allowed). -/
 def isAllowedWatchCall (name : String) : Bool :=
   let upper := name.toUpper
-  Gen.pureNames.contains upper || isConversionName upper || Gen.splitNames.contains upper
+  Gen.pureNames.contains upper || isConversionName upper
 
 /-- One iteration of the loop of `expression_has_side_effects`: does this call make it return `true`?
 (no target / unresolvable target name => `true`; name not on the allow-list => `true`). -/
@@ -650,10 +651,5 @@ inductive HasCall : DExpr → Option String → Prop
       e ∈ cs → HasCall e t → HasCall (.call t' cs) t
   | inNode (cs : List DExpr) (e : DExpr) (t : Option String) :
       e ∈ cs → HasCall e t → HasCall (.node cs) t
-
-/-- Decidable guard of the partial theorem: no call of the expression resolves to a `SPLIT_*` name
-(those are on the allow-list although they write their output arguments). -/
-def noSplitCall (e : DExpr) : Bool :=
-  e.calls.all fun t => match t with | some n => !Gen.splitNames.contains n.toUpper | none => true
 
 end TrustVerif.C17
